@@ -18,6 +18,7 @@ type Config struct {
 	Race           bool
 	MaxDecisions   int
 	BgLowPrio      bool           // goroutines spawned by the code under test and timers run only when no harness thread can
+	QuietPkgs      []string       // no preemption while a function of these packages (import path prefixes) is on the stack
 	Params         map[string]int // harness-visible tier parameters (h.Param)
 }
 
